@@ -46,6 +46,10 @@ var c18Cfgs = []c18Cfg{
 	{"star-headers-credentialed", cors.Config{Origins: []string{"https://*.example.com"}, Credentialed: true, Methods: []string{"*"}, RequestHeaders: []string{"*"}}},
 	{"pna", cors.Config{Origins: []string{"https://*.example.com"}, Credentialed: true, Methods: []string{"PUT"}, RequestHeaders: []string{"X-Listed-1"}, ExtraConfig: cors.ExtraConfig{PrivateNetworkAccess: true}}},
 	{"pna-nocors", cors.Config{Origins: []string{"https://*.example.com"}, RequestHeaders: []string{"X-Listed-1"}, ExtraConfig: cors.ExtraConfig{PrivateNetworkAccessInNoCORSModeOnly: true}}},
+	// rare-but-legitimate scalars on the reflecting configurations (lesson of seeded change C18-p: a path gated on status 200)
+	{"star-headers-credentialed-status-200", cors.Config{Origins: []string{"https://*.example.com"}, Credentialed: true, Methods: []string{"*"}, RequestHeaders: []string{"*"}, MaxAgeInSeconds: -1, ExtraConfig: cors.ExtraConfig{PreflightSuccessStatus: 200}}},
+	{"discrete-status-299", cors.Config{Origins: []string{"https://*.example.com"}, Methods: []string{"PUT"}, RequestHeaders: []string{"X-Listed-1", "X-Listed-2"}, MaxAgeInSeconds: 86400, ExtraConfig: cors.ExtraConfig{PreflightSuccessStatus: 299}}},
+	{"discrete-status-200", cors.Config{Origins: []string{"https://*.example.com"}, Methods: []string{"PUT"}, RequestHeaders: []string{"X-Listed-1", "X-Listed-2"}, ExtraConfig: cors.ExtraConfig{PreflightSuccessStatus: 200}}},
 	// hundreds of discrete names in every list (lesson of seeded change C18-n: a per-lookup cost that only exists for large sets)
 	{"large-lists", cors.Config{Origins: c18ManyOrigins(300), Methods: append(c18ManyNames("M", 300), "PUT", "DELETE"), RequestHeaders: append(c18ManyNames("x-h", 1100), "X-Listed-1", "X-Listed-2"), MaxAgeInSeconds: 30, ResponseHeaders: c18ManyNames("x-e", 300)}},
 }
